@@ -5,6 +5,9 @@
 package ctfe
 
 import (
+	"context"
+
+	"github.com/google/trillian"
 	ct "github.com/google/certificate-transparency-go"
 	"github.com/google/certificate-transparency-go/trillian/ctfe/configpb"
 	"google.golang.org/protobuf/types/known/anypb"
@@ -12,6 +15,17 @@ import (
 )
 
 var c15Names = []string{"", "a", "b"}
+
+type c15MirrorStore struct {
+	calls int
+	max   int64
+}
+
+func (s *c15MirrorStore) GetMirrorSTH(_ context.Context, maxTreeSize int64) (*ct.SignedTreeHead, error) {
+	s.calls++
+	s.max = maxTreeSize
+	return &ct.SignedTreeHead{TreeSize: uint64(maxTreeSize)}, nil
+}
 
 // Harness_C15_multi: configuration sets: absent parts, prefixes, backend names and specs,
 // tree IDs per backend, references to backends.
@@ -102,8 +116,20 @@ func Harness_C15_instance() {
 		sth, err := li.sthGetter.GetSTH(nil)
 		vAssert(err == nil && sth == fsth && be.calls == 0, "a frozen log serves exactly its frozen STH, no backend call")
 	} else if mirror {
-		_, isMirror := li.sthGetter.(*MirrorSTHGetter)
+		mg, isMirror := li.sthGetter.(*MirrorSTHGetter)
 		vAssert(isMirror, "a mirror serves STHs bounded by its backend tree")
+		if isMirror {
+			// the mirror asks its STH store for a head no larger than the backend's tree
+			size := vU64("backend-tree-size")
+			vAssume(size < 1<<62)
+			be.latestRoot = func(*trillian.GetLatestSignedLogRootRequest) (*trillian.GetLatestSignedLogRootResponse, error) {
+				return &trillian.GetLatestSignedLogRootResponse{SignedLogRoot: envRootOf(size, make([]byte, 32), 5)}, nil
+			}
+			st := &c15MirrorStore{}
+			mg.st = st
+			_, err := mg.GetSTH(context.Background())
+			vAssert(err == nil && st.calls == 1 && st.max == int64(size), "the STH store is asked for a head of at most the backend's tree size")
+		}
 	} else {
 		_, isLog := li.sthGetter.(*LogSTHGetter)
 		vAssert(isLog, "a regular log signs its own STHs")
